@@ -32,12 +32,16 @@ pub enum FEv {
 pub struct FCase {
   pub writer_reliable: bool,
   pub pre: Vec<FEv>,
+  /// writes issued right before the call whose commands are still queued when the
+  /// wait command is sent (drained by the Writer in the same batch); 16 = queue full
+  pub deferred_writes: usize,
   pub asynchronous: bool,
   pub post: Vec<FEv>,
 }
 
 pub fn case_json(c: &FCase) -> Value {
   json!({"writer_reliable": c.writer_reliable, "async": c.asynchronous,
+    "deferred_writes": c.deferred_writes,
     "pre": c.pre.iter().map(|e| format!("{e:?}")).collect::<Vec<_>>(),
     "post": c.post.iter().map(|e| format!("{e:?}")).collect::<Vec<_>>()})
 }
@@ -68,7 +72,13 @@ pub fn gen_case(rng: &mut Rng) -> FCase {
   let pre = (0..npre).map(|_| gen_ev(rng, &mut matched, &mut reliable)).collect();
   let npost = rng.below(8);
   let post = (0..npost).map(|_| gen_ev(rng, &mut matched, &mut reliable)).collect();
-  FCase { writer_reliable: !rng.chance(1, 12), pre, asynchronous: rng.chance(1, 2), post }
+  let deferred_writes = match rng.below(12) {
+    0 | 1 | 2 => 1 + rng.below(3) as usize,
+    3 => 15,
+    4 => 16,
+    _ => 0,
+  };
+  FCase { writer_reliable: !rng.chance(1, 12), pre, deferred_writes, asynchronous: rng.chance(1, 2), post }
 }
 
 #[derive(Default, Clone)]
@@ -169,6 +179,14 @@ pub fn run_case(case: &FCase, acc: &mut Acc, tag: &Value) -> FOutcome {
     let abs = m.apply(ev);
     apply_to_bench(&mut wb, ev, abs, &mut counts, &mut next_id);
   }
+  // writes whose commands are still in the queue when the wait command arrives
+  let queue_full = case.writer_reliable && case.deferred_writes >= 16;
+  for _ in 0..case.deferred_writes {
+    next_id += 1;
+    if wb.write_deferred(VSample { key: 1, id: next_id, blob: vec![9] }).is_ok() {
+      m.last += 1;
+    }
+  }
   // predict the outcome to choose the timeout
   let mut sim = m.clone();
   sim.call();
@@ -182,12 +200,57 @@ pub fn run_case(case: &FCase, acc: &mut Acc, tag: &Value) -> FOutcome {
   if !case.writer_reliable {
     will_complete = true; // best-effort writer: documented to answer yes at once
   }
+  if queue_full {
+    // The command queue is full: the Writer cannot even learn about the call until it has
+    // drained the queue. Sync: must not say yes unless the model allows it; a "no" must not
+    // come before the requested time. Use a short timeout; "yes" is accepted only if the
+    // model's pending set is (or becomes) empty.
+    will_complete = false;
+  }
   m.call();
   let sig = fnv64(format!("{:?}", case_json(case)).as_bytes());
   out.sig = sig;
 
   if !case.asynchronous {
     let timeout_ms: u64 = if will_complete { 8000 } else { 100 + (sig % 60) };
+    if queue_full {
+      // give the waiter thread time to attempt its send while the queue is still full
+      wb.sync_wait_spawn(timeout_ms);
+      let t0 = Instant::now();
+      while !wb.sync_wait_finished() && t0.elapsed() < Duration::from_millis(30) {
+        std::thread::sleep(Duration::from_micros(300));
+      }
+      // now the Writer drains the queue; a waiter that is still trying gets its command in,
+      // and the Writer consumes it before anything else happens (model call point)
+      let t1 = Instant::now();
+      while t1.elapsed() < Duration::from_millis(60) {
+        wb.process_commands();
+        if wb.has_ack_waiter() || wb.sync_wait_finished() {
+          break;
+        }
+        std::thread::sleep(Duration::from_micros(300));
+      }
+      for ev in &case.post {
+        let abs = m.apply(ev);
+        apply_to_bench(&mut wb, ev, abs, &mut counts, &mut next_id);
+        wb.process_commands();
+      }
+      if let Some((r, el)) = wb.sync_wait_join() {
+        let cond = m.pending.is_empty();
+        match r {
+          Ok(true) if !cond => acc.violate("C20/no-false-yes:sync-success-while-a-matched-reliable-reader-has-not-acknowledged", json!({"when": "command-queue-full", "pending_readers": m.pending, "elapsed_s": el}), replay()),
+          Ok(true) => out.completed_true = true,
+          Ok(false) => {
+            out.timed_out = true;
+            if el + 0.005 < timeout_ms as f64 / 1000.0 {
+              acc.violate("C20/timeout:sync-returned-before-requested-time:command-queue-full", json!({"elapsed_s": el, "timeout_ms": timeout_ms}), replay());
+            }
+          }
+          Err(e) => acc.violate("C20/error:sync-wait-failed", json!({"err": e}), replay()),
+        }
+      }
+      return out;
+    }
     let t_call = Instant::now();
     wb.sync_wait_spawn(timeout_ms);
     // let the Writer pick the command up (what the event loop does on the channel event)
@@ -313,6 +376,12 @@ pub fn run_case(case: &FCase, acc: &mut Acc, tag: &Value) -> FOutcome {
     }
     wb.process_commands();
     repoll_if_woken!("after-writer-processed-command");
+    if queue_full {
+      // the retried send got the command in only now: let the Writer consume it before
+      // any further event, so that "matched at the call" means the same set on both sides
+      wb.process_commands();
+      repoll_if_woken!("after-writer-processed-late-command");
+    }
     for (i, ev) in case.post.iter().enumerate() {
       let abs = m.apply(ev);
       if let Some((r, base)) = abs {
